@@ -384,6 +384,24 @@ def scripted_world():
 # real HttpProtocolHandler works
 # ---------------------------------------------------------------------------
 
+class TrackedSocket(socket.socket):
+    """a real socket that counts the explicit close() calls made on it (a socket that is merely
+    dropped is closed by the interpreter without close() being called)"""
+
+    def close(self):
+        log = getattr(self, 'closelog', None)
+        if log is not None:
+            log[self.serial] = log.get(self.serial, 0) + 1
+        super().close()
+
+
+def tracked(sock, closelog, serial):
+    t = TrackedSocket(sock.family, sock.type, sock.proto, fileno=sock.detach())
+    t.closelog = closelog
+    t.serial = serial
+    return t
+
+
 class FaultySocket:
     """Forwards to a real socket; the n-th recv / send raises the planned error."""
 
@@ -476,10 +494,12 @@ class RealWorld(World):
         self.plan = []            # outcomes for successive connects; default 'ok'
         self.upstreams = []       # (addr, Peer)
         self.connects = []        # (addr, outcome)
-        self.near = []            # every proxy-side socket object created for connections
+        self.near = []            # every proxy-side socket object created for connections (weak references)
+        self.nearinfo = []        # what each of them is: ('client', addr) / ('up', addr)
+        self.closelog = {}        # serial -> number of explicit close() calls
         self.up_faults = []       # per-connect faults dicts for FaultySocket
 
-    def _pair(self):
+    def _pair(self, info=None):
         """(near, far): the harness keeps only a weak reference to the proxy-side socket, so that a
         socket the proxy drops is closed by reference counting exactly as in production"""
         import weakref
@@ -487,6 +507,11 @@ class RealWorld(World):
         self.socks.pop(near.fileno(), None)
         self.partner.pop(near, None)
         self.partner.pop(far, None)
+        serial = len(self.nearinfo)
+        self.nearinfo.append(info)
+        self.closelog[serial] = 0
+        near = tracked(near, self.closelog, serial)
+        near.setblocking(False)
         self.near.append(weakref.ref(near))
         return near, far
 
@@ -501,7 +526,7 @@ class RealWorld(World):
             raise TimeoutError(errno.ETIMEDOUT, 'timed out')
         if out == 'unreach':
             raise OSError(errno.EHOSTUNREACH, 'No route to host')
-        near, far = self._pair()
+        near, far = self._pair(('up', addr))
         p = Peer(self, far, near.fileno())
         self.upstreams.append((addr, p))
         faults = self.up_faults.pop(0) if self.up_faults else None
@@ -509,7 +534,7 @@ class RealWorld(World):
         return FaultySocket(near, faults) if faults else near
 
     def client(self, faults=None, addr=('127.0.0.1', 40000)):
-        near, far = self._pair()
+        near, far = self._pair(('client', addr))
         p = Peer(self, far, near.fileno())
         self.queue(FaultySocket(near, faults) if faults else near, addr)
         return p
@@ -1069,9 +1094,20 @@ def run_real(case, rounds_per_step=3, final_rounds=8):
             # a socket dropped inside a reference cycle is closed by the cycle collector, not at once
             gc.collect()
             res['leaked'] = w.leaked()
+        res['closes'] = close_report(w)
         return res
     finally:
         w.close()
+
+
+def close_report(w):
+    """[(kind, addr, explicit close() calls, replaced)] per proxy-side socket; `replaced` = a later upstream
+    socket was opened for the same address (the reverse proxy drops the previous one without close())"""
+    out = []
+    for serial, info in enumerate(w.nearinfo):
+        later = any(i2 == info for i2 in w.nearinfo[serial + 1:]) if info and info[0] == 'up' else False
+        out.append((info[0] if info else '?', list(info[1]) if info else None, w.closelog.get(serial, 0), later))
+    return out
 
 
 def run_repeat(case):
@@ -1096,6 +1132,7 @@ def run_repeat(case):
         gc.collect()
         res['fds_before'] = before
         res['fds_after'] = count_fds()
+        res['closes'] = close_report(w)
         res['end'] = w.snapshot() if w.dead is None else None
         res['leaked'] = w.leaked()
         return res
